@@ -433,6 +433,90 @@ def judge_c18(case, res):
     return None, feats, counters
 
 
+def c18_multi_cases(rng, n):
+    """Several files in one decompressing invocation: each file is judged on its own, in order."""
+    cases = []
+    lz_pool = ["tests/files/good-1-v1.lz", "tests/files/good-1-v0.lz", "tests/files/good-2-v1-v0.lz", "tests/files/good-1-v1-trailing-1.lz", "tests/files/bad-1-v1-crc32.lz"]
+    for _ in range(n):
+        files = []
+        for k in range(rng.choice([2, 2, 3, 4])):
+            kind = rng.choice(["xz", "xz", "lzma", "lzma_garbage", "lzma_known", "lz", "lz", "xz_corrupt", "lzma_known_garbage"])
+            f = {"class": rng.choice(["text", "random", "sparse"]), "len": rng.choice([1, 700, 9000, 30000]), "seed": rng.getrandbits(30)}
+            if kind.startswith("xz"):
+                f.update({"name": "m%d.xz" % k, "compress_args": [rng.choice(["-0", "-1"])]})
+                if kind == "xz_corrupt":
+                    f["corrupt_seed"] = rng.getrandbits(20) + 1
+            elif kind.startswith("lzma"):
+                f.update({"name": "m%d.lzma" % k, "compress_args": ["--format=lzma", "-0"]})
+                if "known" in kind:
+                    f["lzma_known_size"] = 1
+                if "garbage" in kind:
+                    f["append_garbage"] = rng.getrandbits(16) + 1
+            else:
+                f.update({"name": "m%d.lz" % k, "repo_file": rng.choice(lz_pool)})
+            files.append(f)
+        mode = rng.choice(["dc", "dc", "t", "d"])
+        args = ["-" + mode, "-T%d" % rng.choice([1, 1, 2])] + [f["name"] for f in files]
+        cases.append({"kind": "c18multi", "tool": "xz", "files": files, "args": args, "stdout": "pipe", "_mode": mode, "faults": [],
+                      "sched_seed": rng.getrandbits(30), "sched_preempt": rng.choice([50, 300, 900]), "sched_strategy": rng.choice([0, 1, 2])})
+    return cases
+
+
+def judge_c18m(case, res):
+    counters = {"runs.total": 1, "runs.multi_file": 1}
+    mode = case["_mode"]
+    ctx = " [xz %s]" % " ".join(case["args"])
+    feats = ["multi|" + mode + "|" + ",".join(f["name"].split(".")[-1] + ("!" if f.get("append_garbage") or f.get("corrupt_seed") else "") for f in case["files"])]
+
+    def viol(cls, msg):
+        return {"cls": cls, "sig": "C18/" + cls, "msg": msg + ctx + "\nstderr: " + res["stderr"][-400:]}, feats, counters
+    if res["rc"] == -999:
+        return viol("hang", "tool did not terminate")
+    want_rc = 0
+    pos = 0
+    out = res["stdout"]
+    for f in case["files"]:
+        data = res["orig"][f["name"]]
+        ref = xzsim.lib_decode(data, "auto")
+        ok = ref["status"] == 1
+        if not ok:
+            want_rc = 1
+        elif ref["unsupported"] and want_rc == 0:
+            want_rc = 2
+        stem = f["name"].rsplit(".", 1)[0]
+        if mode == "dc":
+            cands = [ref["out"]]
+            if not ok:
+                ref2 = xzsim.lib_decode(data, "auto", chunk=8192)
+                if ref2["status"] == ref["status"]:
+                    cands.append(ref2["out"])   # see KF-C06-2
+            for c in sorted(cands, key=len, reverse=True):
+                if out[pos:pos + len(c)] == c:
+                    pos += len(c)
+                    break
+            else:
+                return viol("output-differs", "output for %s (library status %d, %d bytes) is not at offset %d of standard output" % (f["name"], ref["status"], len(ref["out"]), pos))
+        elif mode == "d":
+            tgt = res["tree"].get(stem)
+            src_there = f["name"] in res["tree"]
+            if ok:
+                if tgt is None or tgt.get("data") != ref["out"]:
+                    return viol("file-differs", "%s: decompressed file missing or different from the library's decoding" % f["name"])
+                if src_there:
+                    return viol("source-kept", "%s was decoded completely but is still there" % f["name"])
+            else:
+                if tgt is not None:
+                    return viol("file-from-invalid-input", "%s: a file was created although the library reports status %d" % (f["name"], ref["status"]))
+                if not src_there:
+                    return viol("source-removed", "%s is invalid (library status %d) but was removed" % (f["name"], ref["status"]))
+    if mode == "dc" and pos != len(out):
+        return viol("output-differs", "%d extra bytes on standard output" % (len(out) - pos))
+    if (want_rc == 0) != (res["rc"] == 0) or (want_rc == 1 and res["rc"] != 1):
+        return viol("exit-status", "exit status %s, expected %d from the per-file library results" % (res["rc"], want_rc))
+    counters["outcome.multi_rc_%d" % want_rc] = 1
+    return None, feats, counters
+
+
 def c18_roundtrip_cases(rng, n):
     """xz -z then xz -d for sampled option sets; the second step checks the first."""
     cases = []
@@ -643,11 +727,14 @@ def run_check(prop, cfg, tier, seed):
     elif prop == "C18":
         a = c18_cases(rng, cfg["runs"][tier][0], thorough)
         b = c18_roundtrip_cases(rng, cfg["runs"][tier][1])
-        cases = a + b
+        m = c18_multi_cases(rng, cfg["runs"][tier][1])
+        cases = a + b + m
         for c in a:
             judge_of[id(c)] = "judge_c18"
         for c in b:
             judge_of[id(c)] = "judge_c18rt"
+        for c in m:
+            judge_of[id(c)] = "judge_c18m"
     else:
         import xz_c19
         cases = xz_c19.cases(rng, cfg["runs"][tier][0], thorough)
